@@ -241,11 +241,17 @@ def coq_case(b):
     T = {k: v for k, v in b["tables"].items()}
     def tab(name, fv):
         return clist(T[name], lambda kv: cpair(cstr(kv[0]), fv(kv[1])))
-    imp = lambda v: ("(ImpOk %s %s)" % (cstr(v[1]), clist(v[2], cstr))) if v[0] == "ok" else "(ImpFail %s)" % cstr(v[1])
+    def imp_kv(kv):
+        k, v = kv
+        if v[0] != "ok":
+            return cpair(cstr(k), "(ImpFail %s)" % cstr(v[1]))
+        if not v[1].startswith(k + "."):      # impute_reaction returns "{reaction}.{merged}": the model appends, the oracle is `merged`
+            raise ValueError("impute_reaction result %r does not extend its input %r" % (v[1], k))
+        return cpair(cstr(k), "(ImpOk %s %s)" % (cstr(v[1][len(k) + 1:]), clist(v[2], cstr)))
     cf = clist(T["conf"], lambda kv: "(%s, %s, %s)" % (cstr(kv[0][0]), cstr(kv[0][1]), cz(fkey(kv[1]))))
     o = "(mk %s %s %s %s %s %s %s %s)" % (
         tab("strip", cstr), tab("parse", cbool), tab("decomp", cdict), tab("ccount", cz),
-        tab("mcs_state", lambda v: cpair(cbool(v[0]), cstr(v[1]))), tab("impute", imp), tab("pp", lambda v: copt(v, cstr)), cf)
+        tab("mcs_state", lambda v: cpair(cbool(v[0]), cstr(v[1]))), clist(T["impute"], imp_kv), tab("pp", lambda v: copt(v, cstr)), cf)
     if b["error"] is not None:
         raise ValueError("rebalance raised: " + b["error"])
     lost = (len(b["rows"]) == 0 and b["stats"] == {})
